@@ -154,56 +154,7 @@ fn main() {
     ctx.rule("adversarial universes: 4 templates (full 5-object map, single spinner, single slider, hold+circle) x 4 modes; every set of <= 2 (quick) / <= 3 (thorough, reduced to the full template) deviations from the defaults, each deviation = one corner value of one numeric slot (times up to +-2^31, coordinates up to +-131072, slider length 0..20000, repeats 0..100, spinner/hold lengths -5..10^6 relative to the (deviated) start, beat lengths at the clamps / negative / NaN, difficulty settings at their clamps, versions 3/5/7/128, curve types); a case is in the domain iff it decodes, check_suspicion() is Ok and sliders have <= 100 repeats and <= 20000 px. realistic universes: grammar maps (times within [0, 3h]) executed by workers built with debug assertions and overflow checks. Subject = the whole public battery (bpm, 3 conversion entry points, difficulty, strains, gradual difficulty by next and nth, gradual performance, performance with counts up to 3x the object count, attribute builder) for every reachable mode x settings menu (rates 0.01 and 100, overrides +-20, key mods 1K-10K). Oracle = worker exit status, catch_unwind, 3 s and 1 GiB per case; non-trivial = case is in the domain");
 
     let rich = !ctx.quick();
-    // one flat universe over (template, mode, deviation set) so that the few expensive cases overlap with the rest
-    let mut parts: Vec<(&str, &str, u8, Vec<Vec<(usize, usize)>>)> = Vec::new();
-    for (tname, tpl) in TEMPLATES {
-        for mode in 0..4u8 {
-            let depth = if rich && *tname == "full" { 3 } else { 2 };
-            let devs = deviations(tpl, depth);
-            // thorough depth 3 only over a reduced corner alphabet: first two corners of each slot
-            let devs: Vec<_> = devs.into_iter().filter(|d| d.len() < 3 || d.iter().all(|(_, c)| *c < 2)).collect();
-            // corners that stretch the timeline beyond 10^7 ms make every call cost milliseconds to tens of ms: in the
-            // quick tier they are explored as single deviations only ...
-            let heavy = |d: &(usize, usize)| SLOTS[d.0].corners[d.1].parse::<f64>().is_ok_and(|v| v.abs() >= 1e7) && SLOTS[d.0].name != "bl" && SLOTS[d.0].name != "ibl";
-            let quick = ctx.quick();
-            // ... and only on the osu! templates (mode 0 reaches all four target modes through conversion)
-            let coupled = |d: &Vec<(usize, usize)>| d.len() == 2 && {
-                let names = (SLOTS[d[0].0].name, SLOTS[d[1].0].name);
-                matches!(names, ("t3", "len3") | ("t4", "len4"))
-            };
-            // (a start time and the length of the same spinner / hold note are explored together in every tier)
-            let devs: Vec<_> = devs.into_iter().filter(|d| !quick || !d.iter().any(heavy) || ((d.len() < 2 || coupled(d)) && (mode == 0 || mode == 2))).collect();
-            parts.push((tname, tpl, mode, devs));
-        }
-    }
-    let mut offsets = Vec::new();
-    let mut total = 0u64;
-    for p in &parts {
-        offsets.push(total);
-        total += p.3.len() as u64;
-    }
-    let name = format!("adversarial/4-templates-x-4-modes/dev<={}", if rich { 3 } else { 2 });
-    ctx.universe_isolated(&name, total, 3.0, 1024, |idx, l| {
-        let pi = offsets.partition_point(|o| *o <= idx) - 1;
-        let (tname, tpl, mode, devs) = &parts[pi];
-        let dv = &devs[(idx - offsets[pi]) as usize];
-        let text = render(tpl, *mode, dv);
-        if l.want_sample() || idx % 9973 == 0 {
-            let mut o = J::obj();
-            o.set("universe", J::s(name.clone()));
-            o.set("index", J::i(idx));
-            o.set("template", J::s(*tname));
-            o.set("mode", J::i(*mode));
-            o.set("deviations", J::s(format!("{:?}", dv.iter().map(|(s, c)| format!("{}={}", SLOTS[*s].name, SLOTS[*s].corners[*c])).collect::<Vec<_>>())));
-            l.sample(o);
-        }
-        run_case(l, &text, rich);
-        // make the failing text visible in replays
-        if l.ctx.replay.is_some() {
-            println!("--- case text ({tname}, mode {mode}, deviations {dv:?}) ---\n{text}");
-        }
-    });
-
+    // order: cheapest universes first, so that the internal wall cap can only ever cut the largest one short
     // dense, longer maps: a <= 2 object prefix (incl. a 5-span slider and gaps measured from the previous object's end)
     // followed by a stream of circles, under every key mod. Pattern generators keep state (previous pattern, RNG seeded
     // from the difficulty settings) along the map, which small maps never exercise; positions and difficulty presets vary
@@ -287,5 +238,55 @@ fn main() {
         run_case(l, &spec.text(), false);
     });
     ctx.set_worker_exe(None);
+    // one flat universe over (template, mode, deviation set) so that the few expensive cases overlap with the rest
+    let mut parts: Vec<(&str, &str, u8, Vec<Vec<(usize, usize)>>)> = Vec::new();
+    for (tname, tpl) in TEMPLATES {
+        for mode in 0..4u8 {
+            let depth = if rich && *tname == "full" { 3 } else { 2 };
+            let devs = deviations(tpl, depth);
+            // thorough depth 3 only over a reduced corner alphabet: first two corners of each slot
+            let devs: Vec<_> = devs.into_iter().filter(|d| d.len() < 3 || d.iter().all(|(_, c)| *c < 2)).collect();
+            // corners that stretch the timeline beyond 10^7 ms make every call cost milliseconds to tens of ms: in the
+            // quick tier they are explored as single deviations only ...
+            let heavy = |d: &(usize, usize)| SLOTS[d.0].corners[d.1].parse::<f64>().is_ok_and(|v| v.abs() >= 1e7) && SLOTS[d.0].name != "bl" && SLOTS[d.0].name != "ibl";
+            let quick = ctx.quick();
+            // ... and only on the osu! templates (mode 0 reaches all four target modes through conversion)
+            let coupled = |d: &Vec<(usize, usize)>| d.len() == 2 && {
+                let names = (SLOTS[d[0].0].name, SLOTS[d[1].0].name);
+                matches!(names, ("t3", "len3") | ("t4", "len4"))
+            };
+            // (a start time and the length of the same spinner / hold note are explored together in every tier)
+            let devs: Vec<_> = devs.into_iter().filter(|d| !quick || !d.iter().any(heavy) || ((d.len() < 2 || coupled(d)) && (mode == 0 || mode == 2))).collect();
+            parts.push((tname, tpl, mode, devs));
+        }
+    }
+    let mut offsets = Vec::new();
+    let mut total = 0u64;
+    for p in &parts {
+        offsets.push(total);
+        total += p.3.len() as u64;
+    }
+    let name = format!("adversarial/4-templates-x-4-modes/dev<={}", if rich { 3 } else { 2 });
+    ctx.universe_isolated(&name, total, 3.0, 1024, |idx, l| {
+        let pi = offsets.partition_point(|o| *o <= idx) - 1;
+        let (tname, tpl, mode, devs) = &parts[pi];
+        let dv = &devs[(idx - offsets[pi]) as usize];
+        let text = render(tpl, *mode, dv);
+        if l.want_sample() || idx % 9973 == 0 {
+            let mut o = J::obj();
+            o.set("universe", J::s(name.clone()));
+            o.set("index", J::i(idx));
+            o.set("template", J::s(*tname));
+            o.set("mode", J::i(*mode));
+            o.set("deviations", J::s(format!("{:?}", dv.iter().map(|(s, c)| format!("{}={}", SLOTS[*s].name, SLOTS[*s].corners[*c])).collect::<Vec<_>>())));
+            l.sample(o);
+        }
+        run_case(l, &text, rich);
+        // make the failing text visible in replays
+        if l.ctx.replay.is_some() {
+            println!("--- case text ({tname}, mode {mode}, deviations {dv:?}) ---\n{text}");
+        }
+    });
+
     ctx.finish();
 }
